@@ -61,3 +61,67 @@ def fmt_row(d):
     head = f"{d.get('stmt_id'):>4} p={d.get('parent_stmt_id'):<4} {d.get('operation'):<18}"
     rest = " ".join(f"{k}={d[k]!r}" for k in d if k not in skip | {"stmt_id", "parent_stmt_id", "operation"})
     return head + rest
+
+
+# ------------------------------------------------------------------------------------------------------
+# full-pipeline observation (inside a forked child)
+
+def full_run(files, lang, settings=None, extra_args=(), subcmd="run", want=()):
+    """Run the real pipeline in this (child) process and return plain-data observables."""
+    import re
+    from . import runner
+    import lian.taint.taint_analysis as ta
+    recorded = []
+    orig = ta.TaintAnalysis.find_flows
+
+    def find_flows(self, sources, sinks):
+        flows = orig(self, sources, sinks)
+        recorded.append((self.current_entry_point, [(f.source_stmt_id, f.sink_stmt_id) for f in flows],
+                         [getattr(s, "stmt_id", None) for s in sources], [getattr(s, "stmt_id", None) for s in sinks]))
+        return flows
+    ta.TaintAnalysis.find_flows = find_flows
+    try:
+        r = runner.run_lian(files, lang, subcmd, settings=settings, extra_args=list(extra_args), quiet=False)
+    finally:
+        ta.TaintAnalysis.find_flows = orig
+    out = {"status": r.status, "exc": r.exc, "traceback": r.traceback, "output_tail": r.output[-600:]}
+    if r.status != "ok":
+        return out
+    ld = r.lian.loader
+    units = unit_ids_by_path(r.lian)
+    uid_to_file = {v: k for k, v in units.items()}
+
+    def where(stmt_id):
+        try:
+            uid = ld.convert_stmt_id_to_unit_id(stmt_id)
+            st = ld.get_stmt_gir(stmt_id)
+            return (uid_to_file.get(uid, str(uid)), int(st.start_row) + 1)
+        except Exception:
+            return ("?", -1)
+
+    def mname(mid):
+        try:
+            uid = ld.convert_stmt_id_to_unit_id(mid)
+            return (uid_to_file.get(uid, str(uid)), ld.convert_method_id_to_method_name(mid))
+        except Exception:
+            return ("?", str(mid))
+    eps = ld.get_entry_points() or set()
+    out["entry_points"] = sorted(mname(int(e)) for e in eps if clean(e) is not None)
+    out["analyzing"] = [(int(m.group(1)), m.group(2)) for m in re.finditer(r"Analyzing <method (-?\d+) name: ([^>]*)>", r.output)]
+    out["analyzed_methods"] = sorted({mname(mid) for mid, _ in out["analyzing"]})
+    flows = set()
+    for ep, fl, srcs, snks in recorded:
+        for s, k in fl:
+            flows.add((where(s), where(k)))
+    out["flows"] = sorted(flows)
+    out["flows_by_entry"] = sorted((mname(ep), sorted((where(s), where(k)) for s, k in fl)) for ep, fl, _, _ in recorded if fl)
+    out["sources_seen"] = sorted({where(s) for _, _, srcs, _ in recorded for s in srcs if s is not None})
+    out["sinks_seen"] = sorted({where(s) for _, _, _, snks in recorded for s in snks if s is not None})
+    if "call_paths" in want:
+        paths = []
+        for p in ld.get_call_paths_p3() or []:
+            paths.append([(mname(cs.caller_id), where(cs.call_stmt_id), mname(cs.callee_id)) for cs in p])
+        out["call_paths"] = paths
+    if "lian" in want:
+        out["_lian"] = r.lian
+    return out
